@@ -211,6 +211,77 @@ def run(ctx):
     ctx.tlc("World", "SPECIFICATION Spec\nPROPERTY Reproducible\nCHECK_DEADLOCK FALSE\nCONSTANTS Funcs = {\"det\",\"rand\"}\n "
             "Deterministic = {\"det\"}\n Digests = {1,2}\n ArgVals = {%s}\n" % ("1,2" if T else "1"), note="world design spec (sanity instance)", timeout=3000)
     world(ctx, rnd, T)
+    timer_layer(ctx, rnd, T)
+
+
+def timer_layer(ctx, rnd, T):
+    """Supplementary (not part of C14's verdict): the tic()/toc() timer stack as specified in Timer.tla.  TLC checks the balanced design
+    and exhibits, for the code as it is (a failing call leaves its start time on the stack), the broken user pairing; recorded
+    tic/toc/device histories of the real library are validated by TimerTrace.tla.  Results go to the evidence as notes."""
+    import time
+    from .. import world_lib as wl
+    dv, ppm, ook, ut, gv, binary_sequence, electrical_signal, optical_signal, eye = wl.load()
+    cfg = "SPECIFICATION Spec\nINVARIANT TypeOK\nINVARIANT Ordered\nINVARIANT ElapsedNonNegative\nINVARIANT ExecNonNegative\nINVARIANT UserPairing\nCHECK_DEADLOCK FALSE\n" \
+          "CONSTANTS MaxDepth = 3\n MaxTime = %d\n LeakOnError = %s\n"
+    ctx.tlc("Timer", cfg % (6 if T else 5, "FALSE"), note="supplementary: balanced timer design (user toc pairs with user tic)", count=False)
+    neg = ctx.tlc("Timer", cfg % (5, "TRUE"), expect_ok=False, count=False, note="supplementary: the code as it is - a failing call leaks its start time (UserPairing violated)")
+    leak_model = "UserPairing" in neg.violated
+    ti = ut._timer_instance
+    wl.configure(16, 1e9, None)
+    I = wl.inputs()
+    F, _ = wl.funcs()
+    fast = [n for n in ("PRBS", "DAC-nrz", "LPF", "SAMPLER", "PPM_ENCODER", "HDD", "MZM", "DM", "ADC", "BPF") if n in F]
+    failing = [("FIBER(ndarray)", lambda: dv.FIBER(np.ones(8), 1.0)), ("DAC(shape='sinc')", lambda: dv.DAC(I["bits"], pulse_shape="sinc")),
+               ("PD(r=-1)", lambda: dv.PD(I["o1"], 1e9, r=-1.0)), ("EDFA(ndarray)", lambda: dv.EDFA(np.ones(8), 10, 5)), ("PRBS(order=8)", lambda: dv.PRBS(8, 10))]
+    events, mirror = [], []
+    del ti.tic_stack[:]
+    us = lambda t: int(round(t * 1e6))
+    for k in range(400 if T else 120):
+        r = rnd.random()
+        if r < 0.25:
+            ut.tic(); mirror.append(time.perf_counter())
+            events.append({"kind": "tic", "depth": len(ti.tic_stack)})
+        elif r < 0.5:
+            t_now = time.perf_counter()
+            try:
+                el, raised = float(ut.toc()), False
+            except Exception:
+                el, raised = -1.0, True
+            since = (t_now - mirror.pop()) if mirror else 0.0
+            events.append({"kind": "toc", "depth": len(ti.tic_stack), "raised": raised, "elapsed_us": us(el), "since_us": us(since)})
+        elif r < 0.85:
+            name = rnd.choice(fast)
+            t0 = time.perf_counter()
+            with warnings.catch_warnings():
+                warnings.simplefilter("ignore")
+                with deadline(60):
+                    out = F[name][1](F[name][0](I))
+            wall = time.perf_counter() - t0
+            ex = getattr(out, "execution_time", None)
+            events.append({"kind": "device", "name": name, "depth": len(ti.tic_stack), "raised": False, "exec_us": -1 if ex is None else us(float(ex)), "wall_us": us(wall)})
+        else:
+            name, call = rnd.choice(failing)
+            d0, t0 = len(ti.tic_stack), time.perf_counter()
+            try:
+                with warnings.catch_warnings():
+                    warnings.simplefilter("ignore")
+                    call()
+                raised = False
+            except Exception:
+                raised = True
+            if len(ti.tic_stack) == d0 + 1:
+                mirror.append(t0)
+            events.append({"kind": "device", "name": name, "depth": len(ti.tic_stack), "raised": raised, "exec_us": -1, "wall_us": us(time.perf_counter() - t0)})
+    del ti.tic_stack[:]
+    bad = ctx.validate("TimerTrace", events, note="supplementary: timer stack trace")
+    leaks = sorted({events[i - 1]["name"] for i, c in bad if c == "NOTE-leak-on-error"})
+    other = [(i, c) for i, c in bad if c != "NOTE-leak-on-error"]
+    ctx.extra["supplementary_timer"] = {"model_exhibits_broken_user_pairing_for_the_code_as_it_is": leak_model, "events": len(events),
+                                        "failing_calls_that_leave_a_start_time_on_the_stack": leaks, "other_mismatches": [f"{events[i - 1]['kind']}:{c}" for i, c in other][:10]}
+    if leaks:
+        print(f"NOTE property=C14 supplementary Timer.tla (outside the statement): failing calls leave their tic() on the timer stack: {', '.join(leaks)}")
+    for i, c in other[:5]:
+        print(f"NOTE property=C14 supplementary Timer.tla (outside the statement): event {i} {events[i - 1]} does not match the timer specification ({c})")
 
 
 def world(ctx, rnd, T):
